@@ -3,8 +3,22 @@
 //! requests are piped to the Lean driver and the replies compared.
 mod util;
 mod c_path;
+mod c_line;
 
 use std::io::Write;
+
+fn replay_loop(out: &mut dyn Write, f: fn(&str) -> String) {
+    util::quiet_panics();
+    let stdin = std::io::stdin();
+    let mut line = String::new();
+    loop {
+        line.clear();
+        if std::io::BufRead::read_line(&mut stdin.lock(), &mut line).unwrap() == 0 { break; }
+        let req = line.trim_end_matches('\n');
+        if req.is_empty() { continue; }
+        writeln!(out, "{}\t{}", req, f(req)).unwrap();
+    }
+}
 
 fn main() {
     let args: Vec<String> = std::env::args().collect();
@@ -15,10 +29,12 @@ fn main() {
     let comp = args[1].clone();
     let mut opts = util::Opts { seed: 1, n: 1000, thorough: false, extra: vec![] };
     let mut i = 2;
+    let mut replay = false;
     while i < args.len() {
         match args[i].as_str() {
             "--seed" => { opts.seed = args[i + 1].parse().unwrap(); i += 2; }
             "--n" => { opts.n = args[i + 1].parse().unwrap(); i += 2; }
+            "--replay" => { replay = true; i += 2; }
             "--tier" => { opts.thorough = args[i + 1] == "thorough"; i += 2; }
             _ => { opts.extra.push(args[i].clone()); i += 1; }
         }
@@ -26,7 +42,9 @@ fn main() {
     let stdout = std::io::stdout();
     let mut out = std::io::BufWriter::new(stdout.lock());
     match comp.as_str() {
-        "path" => c_path::run(&opts, &mut out),
+        "path" => if replay { replay_loop(&mut out, c_path::replay_line) } else { c_path::run(&opts, &mut out) },
+        "line" => if replay { replay_loop(&mut out, c_line::replay_line) } else { c_line::run(&opts, &mut out) },
+        "path-oracle" => c_path::oracle(&opts, &mut out),
         _ => {
             eprintln!("unknown component {}", comp);
             std::process::exit(2);
